@@ -41,6 +41,9 @@ RIsInt(a) == a[2] = 1
 RAbs(a) == <<Abs(a[1]), a[2]>>
 RCx(re, im) == re                       \* real instance: the imaginary part is not representable (only used with im = 0)
 RIsReal(a) == TRUE
+RConjS(a) == a
+RRe(a) == a
+RIm(a) == <<0, 1>>
 RSmall(a, M) == Abs(a[1]) <= M /\ a[2] <= M
 
 RECURSIVE RPowNat(_, _)
